@@ -255,6 +255,15 @@ func genC16(r *rt.Rand, tier string, idx int) *world.Scenario {
 		sc.Plan = append(sc.Plan, &simkv.Fault{Op: "scannext", Nth: 1 + r.Intn(60), Effect: "err"})
 		sc.Extra["keep_faults"] = 1
 	}
+	if idx%12 == 4 {
+		// a few transient read errors anywhere (the look at the key before a write, the read that fills a
+		// failure branch, a point read): the request may fail, it may not answer anything etcd would not
+		sc.Class = "etcd-api-history+read-faults"
+		for i := 0; i < 1+r.Intn(3); i++ {
+			sc.Plan = append(sc.Plan, &simkv.Fault{Op: []string{"iter", "next"}[r.Intn(2)], Nth: 1 + r.Intn(70), Effect: "err"})
+		}
+		sc.Extra["keep_faults"] = 1
+	}
 	keys := []string{prefix + "/a", prefix + "/a/b", prefix + "/b", prefix + "/pods/ns/p1", prefix + "/pods/ns/p2"}
 	var cl world.Client
 	n := 12 + r.Intn(30)
@@ -477,6 +486,7 @@ func c16Custom(t *testing.T, sc *world.Scenario, out *Outcome) {
 				}
 				eff := m.eval(txn)
 				mark := gtMark()
+				readFaults := w.KV.Fired["iter:err"] + w.KV.Fired["next:err"]
 				resp, err := sn.Etcd.Txn(ctx, txn)
 				s.YieldIdle("client.lockstep")
 				s.Note("txn %d %s -> %v %v", i, op.API, resp.GetSucceeded(), err)
@@ -489,7 +499,9 @@ func c16Custom(t *testing.T, sc *world.Scenario, out *Outcome) {
 					if mutatedSince(mark) {
 						out.violate(P, "error-but-mutated", "error-but-mutated shape="+op.API, "txn %s on %s answered error %q but mutated the store", op.API, op.Key, err.Error())
 					}
-					if supported {
+					if supported && w.KV.Fired["iter:err"]+w.KV.Fired["next:err"] > readFaults {
+						out.probe("txn-failed-on-injected-read-error")
+					} else if supported {
 						out.violate(P, "supported-shape-rejected", "supported-shape-rejected shape="+op.API, "supported transaction %s(%s, rev %d) was rejected: %v", op.API, op.Key, rev, err)
 					}
 					resync()
@@ -561,11 +573,11 @@ func c16Custom(t *testing.T, sc *world.Scenario, out *Outcome) {
 				}
 			case "erange":
 				req := &pb.RangeRequest{Key: []byte(op.Key), RangeEnd: []byte(op.End), Limit: op.Limit, CountOnly: op.API == "count"}
-				firedBefore := w.KV.Fired["scannext:err"]
+				firedBefore := w.KV.Fired["scannext:err"] + w.KV.Fired["iter:err"] + w.KV.Fired["next:err"]
 				resp, err := sn.Etcd.Range(ctx, req)
 				s.Note("range %d -> %d %v", i, len(resp.GetKvs()), err)
 				if err != nil {
-					if w.KV.Fired["scannext:err"] > firedBefore {
+					if w.KV.Fired["scannext:err"]+w.KV.Fired["iter:err"]+w.KV.Fired["next:err"] > firedBefore {
 						// the injected iterator error surfaced: the read may fail, it may not answer wrongly
 						out.probe("range-failed-on-injected-scan-error")
 						continue
@@ -573,7 +585,7 @@ func c16Custom(t *testing.T, sc *world.Scenario, out *Outcome) {
 					out.violate(P, "range-rejected", "range-rejected", "Range(%s,%s) failed: %v", op.Key, op.End, err)
 					continue
 				}
-				if w.KV.Fired["scannext:err"] > firedBefore {
+				if w.KV.Fired["scannext:err"]+w.KV.Fired["iter:err"]+w.KV.Fired["next:err"] > firedBefore {
 					out.probe("range-answered-despite-injected-scan-error")
 				}
 				ks := m.rangeKeys(op.Key, op.End)
